@@ -4,9 +4,9 @@
 // Domain decisions
 //   - MakeIConditionalWorker is not part of the grammar: it drops the records
 //     that do not satisfy its condition; whether that is intended is not stated.
-//   - CompleteFileIterator is only applied to streams whose batches arrive in
-//     order (every caller in the tree sorts first); its behaviour on unsorted
-//     arrival is not claimed.
+//   - CompleteFileIterator is applied to streams whose batches arrive in any
+//     order: ReadGenbank / ReadEMBL call it on the unsorted output of their
+//     parsing workers.
 //   - Pool renumbers batches in arrival order: only the multiset of records and
 //     the batch numbering are checked downstream of a Pool.
 //   - ReadSequencesBatchFromFiles: with one reader the files are concatenated in
@@ -256,7 +256,7 @@ func (b *builder) apply(it obiiter.IBioSequence, m mstream, st Stage) (obiiter.I
 	case "limitmem":
 		it = it.LimitMemory(0.999)
 	case "complete":
-		it = it.SortBatches().CompleteFileIterator()
+		it = it.CompleteFileIterator()
 	case "pool", "concat":
 		others := make([]obiiter.IBioSequence, 0, len(st.Extra))
 		for _, e := range st.Extra {
